@@ -83,11 +83,17 @@ if TYPE_CHECKING:
 _LOGGER = logging.getLogger(__name__)
 
 
+def _natural_sorting_key(text: str) -> tuple[list[float | str], str]:
+    # the text itself breaks ties like "m_01" and "m_1", so that the order does not
+    # depend on the order of insertion
+    return natural_sorting(text), text
+
+
 def _order_component_mapping(
     mapping: Mapping[str, sp.Expr],
 ) -> OrderedDict[str, sp.Expr]:
     return collections.OrderedDict([
-        (key, mapping[key]) for key in sorted(mapping, key=natural_sorting)
+        (key, mapping[key]) for key in sorted(mapping, key=_natural_sorting_key)
     ])
 
 
@@ -96,7 +102,7 @@ def _order_symbol_mapping(
 ) -> OrderedDict[sp.Symbol, sp.Expr]:
     return collections.OrderedDict([
         (symbol, mapping[symbol])
-        for symbol in sorted(mapping, key=lambda s: natural_sorting(s.name))
+        for symbol in sorted(mapping, key=lambda s: _natural_sorting_key(s.name))
     ])
 
 
@@ -105,7 +111,7 @@ def _order_amplitudes(
 ) -> OrderedDict[sp.Indexed, sp.Expr]:
     return collections.OrderedDict([
         (key, mapping[key])
-        for key in sorted(mapping, key=lambda a: natural_sorting(str(a)))
+        for key in sorted(mapping, key=lambda a: _natural_sorting_key(str(a)))
     ])
 
 
